@@ -1,6 +1,5 @@
 /- Property C01: the property theorems (and nothing else). -/
-import Frugal.Proofs.WireRT
-import Frugal.Proofs.EncodeRefine
+import Frugal.Proofs.RoundTrip
 import Frugal.Props.Instances
 namespace Frugal.C01
 open Frugal
@@ -15,4 +14,24 @@ theorem encode_is_reference (S : Schema) (hS : S.ok = true) (sid : Nat) (v : Val
     (ht : hasTy S (.strct sid) v = true) :
     appendM Generated.params S sid v = refEncStruct S sid v :=
   appendAny_eq Instances.params_valid S hS v (.strct sid) rfl ht
+
+/-- Encode then decode, for every accepted schema and every value (without retained unknown fields,
+    lengths within the wire format's int32): the decoder consumes exactly the encoded length and
+    returns what the reference reader reads from the value's denotation, whatever the destination
+    held.  [`roundtrip_partial`: the remaining step to the full statement of C01 is
+    `readMessage (messageOf v) fresh = norm v`, a statement about the two specifications only; see
+    DESIGN.md section 9.] -/
+theorem roundtrip_partial (S : Schema) (hS : S.ok = true) (sid : Nat) (xs : List Val) (dest : Val)
+    (ht : hasTy S (.strct sid) (.st xs []) = true) (hn : noHolderList xs = true)
+    (hf : sizesFitList xs = true) :
+    decodeM Generated.params S sid (appendM Generated.params S sid (.st xs [])) dest =
+      (readMessage Generated.params S sid (messageOf S sid (.st xs [])) 0 dest).mapv
+        (·, (appendM Generated.params S sid (.st xs [])).length) :=
+  roundtrip_via_reader Instances.params_valid S hS sid xs dest ht hn hf
+
+/-- the hypotheses are satisfiable: a recursive type, a NaN, a nil list, an omitted optional -/
+example : let S : Schema := [{ fields := [
+      { id := 1, req := .dflt, ty := .base .double }, { id := 2, req := .dflt, ty := .list false (.base .i32) },
+      { id := 3, req := .optional, ty := .ptr (.strct 0) }] }]
+    S.ok = true ∧ hasTy S (.strct 0) (.st [.sc 0x7ff8000000000001, .lst true [], .nilp] []) = true := by decide
 end Frugal.C01
